@@ -45,6 +45,7 @@ def run(ctx):
     d3_validation_iterindices(ctx, ii)
     d3_validation_fit_frames(ctx, ff)
     d4_consumers(ctx, ic, ff)
+    d5_frame_recurrence(ctx, ii, ff)
 
 
 def d1_copies(ctx, ic, ii):
@@ -292,3 +293,145 @@ def d4_consumers(ctx, ic, ff):
             ctx.decide(ok, 'R-FLOW', 'D4', g, node, f'consumer::{cal.name}',
                        f'_archunkgenerator passes chunklen to {cal.name}', detail='chunklen not forwarded')
     ctx.floor('C14 consumers of the frame arithmetic', n, 2)
+
+
+def d5_frame_recurrence(ctx, ii, ff):
+    """Induction over polynomial normal forms (darrlint/poly.py; nothing is executed, no solver): the k-th frame that
+    iterindices yields is (start + k*step, start + k*step + chunklen) for k < nframes, the partial frame — if any — is
+    (start + nframes*step, end), where nframes is the count fit_frames returns; fit_frames' triple satisfies
+    covered = n*step + chunklen - step, remainder = total - covered, and n = floor((total - chunklen)/step) + 1 up to
+    polynomial rewriting.  Any construct outside the modelled subset makes the obligation *assumed*, not violated."""
+    from .. import poly as P
+    # ---------------- iterindices
+    names = {p: P.atom(p) for p in ii.params if p != 'self'}
+    need = ('chunklen', 'stepsize', 'startindex', 'endindex')
+    if not all(n in names for n in need):
+        ctx.assume('R-TABLE', 'D5', ii, None, 'frame-recurrence', 'iterindices yields the frames of the specification',
+                   detail='parameter names changed')
+        return
+    S, T, C, E = names['startindex'], names['stepsize'], names['chunklen'], names['endindex']
+    env = dict(names)
+    state = {'loop': None, 'tail': [], 'n': None}
+
+    def is_default_if(st):
+        t = st.test
+        return isinstance(t, ast.Compare) and len(t.ops) == 1 and isinstance(t.ops[0], (ast.Is, ast.IsNot)) and \
+            isinstance(t.comparators[0], ast.Constant) and t.comparators[0].value is None and \
+            isinstance(t.left, ast.Name) and t.left.id in names
+
+    def on_if(st, en):
+        if always_raises(st.body) and not st.orelse:
+            return True
+        if is_default_if(st):
+            return True
+        ys = [x for x in ast.walk(st) if isinstance(x, ast.Yield)]
+        if ys and not any(isinstance(x, (ast.For, ast.While)) for x in ast.walk(st)):
+            for y in ys:
+                v = y.value
+                elts = v.elts if isinstance(v, ast.Tuple) else [v]
+                state['tail'].append((y, tuple(P.of_expr(x, en) for x in elts)))
+            return True
+        return False
+    body = [s for s in ii.node.body if not (isinstance(s, ast.Expr) and isinstance(s.value, ast.Constant))]
+    try:
+        pre, loop, post = [], None, []
+        for st in body:
+            if isinstance(st, ast.For) and loop is None:
+                loop = st
+            elif loop is None:
+                pre.append(st)
+            else:
+                post.append(st)
+        if loop is None:
+            raise P.Unsupported('no counted loop')
+        for st in pre:
+            # bind the triple returned by fit_frames to named atoms
+            if isinstance(st, ast.Assign) and isinstance(st.value, ast.Call) and \
+                    any(t is ff for k_, t in ctx.R.resolve_call(st.value, ii) if k_ == 'repo'):
+                tg = st.targets[0]
+                elts = tg.elts if isinstance(tg, ast.Tuple) else []
+                for nm, el in zip(('NFRAMES', 'COVERED', 'REMAINDER'), elts):
+                    if isinstance(el, ast.Name):
+                        env[el.id] = P.atom(nm)
+                if not elts:
+                    raise P.Unsupported('fit_frames result is not unpacked')
+                continue
+            P.exec_block([st], env, lambda *a: (_ for _ in ()).throw(P.Unsupported('yield before the loop')), on_if=on_if)
+        n, ys, after = P.loop_closed_form(loop, env)
+        P.exec_block(post, after, lambda st_, vals, en: state['tail'].append((st_, vals)), on_if=on_if)
+    except (P.Unsupported, P.NotPoly, KeyError) as e:
+        ctx.assume('R-TABLE', 'D5', ii, None, 'frame-recurrence', 'iterindices yields the frames of the specification',
+                   detail=f'outside the modelled subset: {e}')
+        ys = None
+    if ys is not None:
+        k = P.atom('k')
+        want = (P.add(S, P.mul(k, T)), P.add(P.add(S, P.mul(k, T)), C))
+        ok = n == P.atom('NFRAMES') and len(ys) == 1 and ys[0][1] == want
+        got = ', '.join(P.text(x) for x in ys[0][1]) if ys else '<no yield>'
+        allp = [n] + [x for _, v in ys for x in v] + [x for _, v in state['tail'] for x in v]
+        if P.has_placeholder(*allp):
+            ctx.assume('R-TABLE', 'D5', ii, loop, 'frame-recurrence', 'iterindices yields the frames of the specification',
+                       detail='a value on the way is computed by something outside the polynomial fragment')
+            ys = None
+    if ys is not None:
+        ctx.decide(ok, 'R-TABLE', 'D5', ii, loop, 'frame-recurrence',
+                   'iterindices: for k in range(nframes) the k-th frame is (start + k*step, start + k*step + chunklen), '
+                   'nframes being the count returned by fit_frames (induction over polynomial normal forms)',
+                   detail=f'loop runs {P.text(n)} times and yields ({got}) at iteration k')
+        wt = (P.add(S, P.mul(P.atom('NFRAMES'), T)), E)
+        bad = [(y, v) for y, v in state['tail'] if v != wt]
+        ctx.decide(bool(state['tail']) and not bad, 'R-TABLE', 'D5', ii, state['tail'][0][0] if state['tail'] else None,
+                   'partial-frame-bounds',
+                   'iterindices: the partial frame is (start + nframes*step, end): it starts where the next full frame would',
+                   detail=('partial frame is (' + ', '.join(P.text(x) for x in bad[0][1]) + ')') if bad else 'no partial-frame yield found')
+    # ---------------- fit_frames
+    fn = {p: P.atom(p) for p in ff.params}
+    if not all(p in fn for p in ('totallen', 'chunklen', 'steplen')):
+        return
+    L, Cc, St = fn['totallen'], fn['chunklen'], fn['steplen']
+    env = dict(fn)
+    ret = None
+
+    def on_if2(st, en):
+        if always_raises(st.body) and not st.orelse:
+            return True
+        if any(isinstance(x, ast.Return) for x in ast.walk(st)):
+            return True          # the early return for "no full frame fits" (decided by D3)
+        t = st.test
+        if isinstance(t, ast.Compare) and isinstance(t.ops[0], (ast.Is, ast.IsNot)):
+            return True          # default substitution
+        return False
+    try:
+        body = [s for s in ff.node.body if not (isinstance(s, ast.Expr) and isinstance(s.value, ast.Constant))]
+        if not isinstance(body[-1], ast.Return) or not isinstance(body[-1].value, ast.Tuple) or len(body[-1].value.elts) != 3:
+            raise P.Unsupported('fit_frames does not end in `return a, b, c`')
+        P.exec_block(body[:-1], env, lambda *a: None, on_if=on_if2)
+        ret = tuple(P.of_expr(x, env) for x in body[-1].value.elts)
+    except (P.Unsupported, P.NotPoly) as e:
+        ctx.assume('R-TABLE', 'D5', ff, None, 'fit-frames-relations', 'fit_frames returns (n, n*step + chunklen - step, total - covered)',
+                   detail=f'outside the modelled subset: {e}')
+    if ret is not None:
+        n_, cov, rem = ret
+        wcov = P.add(P.add(P.mul(n_, St), Cc), St, -1)
+        if P.has_placeholder(cov, rem):
+            ctx.assume('R-TABLE', 'D5', ff, body[-1], 'fit-frames-relations',
+                       'fit_frames returns (n, n*step + chunklen - step, total - covered)',
+                       detail='a value on the way is computed by something outside the polynomial fragment')
+        else:
+            ctx.decide(cov == wcov and rem == P.add(L, cov, -1), 'R-TABLE', 'D5', ff, body[-1], 'fit-frames-relations',
+                       'fit_frames: covered length = n*step + chunklen - step and remainder = total - covered (polynomial identities)',
+                       detail=f'returns ({P.text(n_)}, {P.text(cov)}, {P.text(rem)})')
+        wn = P.add(P.floordiv(P.add(L, Cc, -1), St), P.const(1))
+        if n_ == wn:
+            ctx.ok('R-TABLE', 'D5', ff, body[-1], 'fit-frames-count',
+                   'fit_frames: number of full frames = floor((total - chunklen)/step) + 1 (normal form)')
+        elif all(a in ('totallen', 'chunklen', 'steplen') or a.startswith('floordiv(') for m in n_ for a in m) and \
+                not any('<' in a for m in n_ for a in m):
+            ctx.bad('R-TABLE', 'D5', ff, body[-1], 'fit-frames-count',
+                    'fit_frames: number of full frames = floor((total - chunklen)/step) + 1 (normal form)',
+                    detail=f'count is {P.text(n_)}, which is a different polynomial/floor-division form than '
+                           f'{P.text(wn)}')
+        else:
+            ctx.assume('R-TABLE', 'D5', ff, body[-1], 'fit-frames-count',
+                       'fit_frames: number of full frames = floor((total - chunklen)/step) + 1',
+                       detail=f'count `{P.text(n_)}` uses operations outside the polynomial / floor-division fragment')
